@@ -142,6 +142,9 @@ CUSTOM_KEYS = ["", "a", "b", "eth2", "attnets", "client", "client", "zz", "k", "
 
 
 def rand_custom_key(rng):
+    if rng.random() < 0.06:
+        # keys around the short/long RLP header boundary
+        return [0x6b] * rng.choice([55, 56, 57, 60])
     if rng.random() < 0.8:
         k = rng.choice(CUSTOM_KEYS)
         return list(k.encode("latin-1"))
@@ -254,6 +257,8 @@ def gen_auth(rng, n_records, sweep_stride=1, kts=KT_ALL):
         rec = rand_record(rng, scheme="ed" if r % 3 == 2 else "secp")     # both schemes in every run
         if r % 5 == 1:
             rec["seq"] = []                                                 # sequence number 0: its encoding is the single byte 80
+        if r % 3 == 0 and not any(bytes(k) == b"e0" for k, _ in rec["pairs"]) and rec_len(rec["seq"], rec["pairs"]) < 290:
+            rec["pairs"] = sorted(rec["pairs"] + [[B("e0"), [0x80]]], key=lambda p: bytes(p[0]))   # an empty value under a custom key
         other = rand_record(rng, signer=rec["by"])
         base = recspec(rec)
         steps = [{"op": "decode", "kts": kts, "input": base, "tag": "valid"}]
@@ -309,6 +314,13 @@ def gen_auth(rng, n_records, sweep_stride=1, kts=KT_ALL):
         extra = sorted(rec["pairs"] + [[B("zzextra"), enc_str([1, 2, 3])]], key=lambda p: bytes(p[0]))
         for tag, ps in [("unsigned_duplicate_before", dup_before), ("unsigned_duplicate_after", dup_after), ("unsigned_extra_pair", extra)]:
             tam.append((tag, {"rec": {"seq": rec["seq"], "pairs": ps, "sig": {"by": rec["by"], "over": orig}}}))
+        noid = [p for p in rec["pairs"] if bytes(p[0]) != b"id"]
+        tam.append(("id_missing_resigned", {"rec": {"seq": rec["seq"], "pairs": noid, "sig": {"by": rec["by"]}}}))
+        for jj, (kk, vv) in enumerate(rec["pairs"]):
+            if vv == [0x80] and bytes(kk) not in (b"tcp", b"tcp6", b"udp", b"udp6"):
+                flipped = [list(p) for p in rec["pairs"]]
+                flipped[jj] = [kk, [0xc0]]
+                tam.append(("empty_string_to_empty_list_unsigned", {"rec": {"seq": rec["seq"], "pairs": flipped, "sig": {"by": rec["by"], "over": orig}}}))
         for n in [0, 1, 32, 63, 65, 66, 96, 128]:
             tam.append(("siglen_%d" % n, recspec(rec, sig={"len": n})))
         tam.append(("sig_as_list", recspec(rec, sig={"as": "l"})))
@@ -536,7 +548,14 @@ def gen_prefix(rng, n, kts=KT_ALL):
         steps = []
         mini_signer = rng.choice(SECP_SIGNERS + ED_SIGNERS)
         mini = {"seq": rng.choice([[], [1], [200]]), "pairs": rand_pairs(rng, mini_signer, extra_reserved=False, max_custom=0), "by": mini_signer}
-        cands = [("valid", recspec(rec)), ("valid_minimal", recspec(mini)), ("empty_list", {"raw": [0xc0]}), ("one_byte", {"raw": [5]}),
+        sized = []
+        for target in (257, 258, 259, 260, 261, 299, 300):
+            bs = rng.choice(SECP_SIGNERS[:4] + ED_SIGNERS[:2])
+            p0 = rand_pairs(rng, bs, extra_reserved=False, max_custom=0)
+            p1 = pad_to(rng, [1], p0, target)
+            if p1:
+                sized.append(("valid_size_%d" % target, {"rec": {"seq": [1], "pairs": p1, "sig": {"by": bs}}}))
+        cands = sized + [("valid", recspec(rec)), ("valid_minimal", recspec(mini)), ("empty_list", {"raw": [0xc0]}), ("one_byte", {"raw": [5]}),
                  ("short_string", {"raw": [0x83, 1, 2, 3]})] + [m for m in rng.sample(muts, 6) if "raw" not in m[1]]
         for tag, spec in cands:
             for sn in rng.sample([1, 2, 3, 4, 5, 50, 166, 167, 200, 300, 1000], 4):
@@ -568,6 +587,13 @@ def gen_prefix(rng, n, kts=KT_ALL):
             bad[j] = m
             steps.append({"op": "decode_stream", "kt": kt, "input": {"concat": bad}, "tag": "stream_bad_%s" % tag})
             steps.append({"op": "decode_list", "kt": kt, "input": {"list": bad}, "tag": "list_bad_%s" % tag})
+            for target in (258, 259, 260):
+                bs = [x for x in (SECP_SIGNERS[:4] + ED_SIGNERS[:2]) if scheme_ok(kt, x)][0]
+                p1 = pad_to(rng, [7], rand_pairs(rng, bs, extra_reserved=False, max_custom=0), target)
+                if p1:
+                    big = {"rec": {"seq": [7], "pairs": p1, "sig": {"by": bs}}}
+                    steps.append({"op": "decode_stream", "kt": kt, "input": {"concat": [big, specs[0], big]}, "tag": "stream_size_%d" % target})
+                    steps.append({"op": "decode_list", "kt": kt, "input": {"list": [big, specs[0]]}, "tag": "list_size_%d" % target})
             if kt == "comb":
                 er = rand_record(rng, signer="e1")
                 sr = rand_record(rng, signer="k1")
@@ -1262,7 +1288,10 @@ def gen_cross(rng, n):
 def gen_nid(rng, n_random):
     sid = Sid("nid")
     N = 0xFFFFFFFFFFFFFFFFFFFFFFFFFFFFFFFEBAAEDCE6AF48A03BBFD25E8CD0364141
-    scal = [1, 2, 3, N - 1, N - 2, 2 ** 255, 2 ** 128, N // 2, N // 2 + 1] + [rng.randrange(1, N) for _ in range(n_random)]
+    scal = [1, N - 1, 2, N - 2, 3, N - 3, 2 ** 255, N - 2 ** 255, 2 ** 128, N // 2, N // 2 + 1]       # d directly followed by n - d (same x, other y)
+    for _ in range(n_random):
+        d = rng.randrange(1, N)
+        scal += [d, N - d] if rng.random() < 0.3 else [d]
     # keys whose x coordinate starts with 00 / 02 / 03 / 04 / 06 / 07 / ff (bytes that look like SEC1 tags or padding)
     scal += [int(h, 16) for h in KEYS.get("special_x", {}).values()]
     out = []
@@ -1435,6 +1464,21 @@ def gen_size_exact(rng, kts=("k256", "libsecp", "ed", "comb"), targets=range(296
             if a.get("pk_of") == "OWN":
                 a["pk_of"] = own
             hit = None
+            if m in ("insert", "insert_raw_rlp") and a["key"] in (B("y"), B("yy")) and rng.random() < 0.5:
+                # variant: a small record, and the inserted value itself brings it to the target size
+                small = sorted([[B("id"), enc_str(B("v4"))], [B(pk_key(own)), enc_str(KEYS[own]["pk"])]], key=lambda p: bytes(p[0]))
+                for n in range(100, 240):
+                    a2 = dict(a)
+                    if m == "insert":
+                        a2["val"] = {"ty": "bytes", "v": [0xBB] * n}
+                    else:
+                        a2["raw"] = enc_str([0xBB] * n)
+                    post, nseq = _apply_py(small, sq, m, a2)
+                    if rec_len(nseq, post) == target:
+                        steps.append({"op": "decode", "h": "r", "kt": kt, "input": {"rec": {"seq": sq, "pairs": small, "sig": {"by": own}}}, "tag": "sizex_fill_%d" % target})
+                        steps.append({"op": "call", "h": "r", "m": m, "args": a2, "signer": own, "obs": obs})
+                        break
+                continue
             for n in range(0, 230):
                 pre = sorted(base + [[B("zpad"), enc_str([0xAA] * n)]], key=lambda p: bytes(p[0]))
                 if rec_len(sq, pre) > 300:
